@@ -124,22 +124,17 @@ def run():
 
 
 def task_obligation(prog, engs, fn, key="rehash:task"):
-    """rehash's task closure: the members of an id-group are sent iff the hash function returned Some; every member once
-    (also used by C15: a file whose hash failed is dropped alone)"""
+    """rehash's task (the closure handed to the thread pool, helpers of group.rs inlined): the members of an id-group are
+    sent iff the hash function returned Some; every member once (also used by C15: a file whose hash failed is dropped alone)"""
     rh = prog.find(r"^(group::)?rehash$")
-    cands = [g for g in prog.fns.values() if g.name.startswith(rh.name + "::{closure#") and g.name.count("{closure#") == 3
-             and g.ret.strip() == "()" and len(g.args) == 1 and "send" in g.text and "call" in g.text]
-    if len(cands) != 1:
-        raise Inconclusive("rehash task closure: %d candidates" % len(cands))
-    tk = cands[0]
-    span = tk.args[0][1]
-    names = oblig.capture_names(prog, span)
-    if not names or "fg" not in names:
-        raise Inconclusive("captures of the rehash task closure not identified")
-    eng = oblig.engine(prog, unroll=3)
+    tk, span, caps = oblig.spawned_task(prog, rh)
+    lists = [i for i, (nme, ty) in enumerate(caps) if "Vec<" in ty and "HashedFileInfo" in ty]
+    if len(lists) != 1:
+        raise Inconclusive("captures of the rehash task closure not identified: %s" % caps)
+    eng = oblig.engine(prog, unroll=3, inline=oblig.module_inliner(prog, "group.rs", TASK_LEAVES))
     engs.append(eng)
     items = [Lazy("m0", "HashedFileInfo"), Lazy("m1", "HashedFileInfo")]
-    fields = {i: (ListV(items) if nme == "fg" else Lazy("cap_" + nme, "?")) for i, nme in enumerate(names)}
+    fields = {i: (ListV(items) if i == lists[0] else Lazy("cap_" + nme, "?")) for i, (nme, ty) in enumerate(caps)}
     qs = eng.run(tk, args=[Agg(span, fields)])
 
     def prop(q):
@@ -157,3 +152,6 @@ def task_obligation(prog, engs, fn, key="rehash:task"):
     return oblig.check_paths(eng, qs, "rehash task: members are sent iff the hash function returned Some; every path of the id-group exactly once",
                              prop, fn(), bounds="id-groups of 2 paths, loop unrolled 3", key=key,
                              allow=("return", "panic", "diverge"))
+
+
+TASK_LEAVES = r"RLIMIT|Semaphore|access_owned|FileGroup::|DiskDevice"
